@@ -127,6 +127,12 @@ class Src:
         self.i += 1
         return self.items[self.i - 1]
 
+    closed_calls = 0
+
+    def close(self):
+        # the source is also a resource with a close() of its own (a reader): closing it is its owner's business, not the helper's
+        self.closed_calls += 1
+
 
 class Clock:
     def __init__(self, readings):
@@ -138,12 +144,16 @@ class Clock:
         return self.readings.pop(0)
 
 
+SEND_STEPS = [False]
+
+
 def drive(stream, src, k, close):
     """k nexts then optional close; returns per-demand (draws, outputs so far), final status"""
     got, hist, status = [], [], 'open'
-    for _ in range(k):
+    for step in range(k):
         try:
-            got.append(next(stream))
+            # (a consumer may use send() as well as next(): the helpers do not listen to what they are sent)
+            got.append(stream.send(('sent', step)) if (SEND_STEPS[0] and step > 0 and step % 2 == 1 and status == 'open' and got) else next(stream))
             hist.append((src.i, len(got)))
         except StopIteration:
             status = 'done' if status == 'open' else status
@@ -153,6 +163,9 @@ def drive(stream, src, k, close):
             hist.append((src.i, len(got)))
         except ValueError:
             status = 'valueerror' if status == 'open' else status
+            hist.append((src.i, len(got)))
+        except Exception as e:  # noqa
+            status = ('raised ' + type(e).__name__) if status == 'open' else status
             hist.append((src.i, len(got)))
     if close and status == 'open':
         stream.close()
@@ -176,6 +189,7 @@ def observe_cases(ctx):
             n = rng.choice([130, 300])          # longer than an 8-bit counter can count
             k = n + 1
         src = Src(n, fail)
+        SEND_STEPS[0] = rng.random() < 0.3
         log = []
         # what an observer returns is its own business (file.write returns a count, a predicate returns a bool, ...): never looked at
         rets = [rng.choice([None, None, True, 1, 'text', [0], np.array([1, 2]), NoTruth(), 'el']) for _ in range(nf)]
@@ -246,11 +260,46 @@ def observe_cases(ctx):
         if status != want_status:
             ctx.fail('observe-end-state:' + case['helper'], 'stream ended as %s, expected %s' % (status, want_status), case)
             continue
+        if src.closed_calls:
+            ctx.fail('observe-closes-source:' + case['helper'], 'the helper called close() on its source (%d times); the source belongs to the caller' % src.closed_calls, case)
+            continue
         thawed = [k for k, el in enumerate(src.items) if isinstance(el, np.ndarray) and el.flags.writeable]
         if thawed:
             ctx.fail('observe-changes-element:' + case['helper'], 'read-only array elements %s are writeable after they went through' % thawed[:6], case)
             continue
         metas.append((case, len(got), src.i, [(j, elk(el)) for j, el in log], len(lines) - 1, k + (1 if close else 0)))
+    # a long timed stream: hundreds of elements within one interval (a burst), then sparse arrivals — which elements are observed depends on
+    # their arrival times alone, however many came before
+    for iv_s, burst in ((1.0, 600), (2.5, 2000)):
+        iv_ns = int(iv_s * 1e9)
+        t = 1700000000000000000
+        readings = []
+        for i in range(burst + 14):
+            readings.append(t)
+            t += 1000 if i < burst else rng.choice([int(0.7 * iv_ns), int(0.4 * iv_ns), iv_ns + 5, 2 * iv_ns])
+        n = len(readings)
+        src = Src(n, False)
+        SEND_STEPS[0] = False
+        log = []
+        clk = Clock(readings + [readings[-1]] * 3)
+        old = S.time
+        S.time = clk
+        try:
+            stream = S.observe_time(src, lambda el: log.append((0, el)), interval=iv_s)
+            got, hist, status = drive(stream, src, n + 1, False)
+        finally:
+            S.time = old
+        want_calls, tlast = [], 0
+        for i in range(n):
+            if readings[i] - tlast > iv_ns:
+                tlast = readings[i]
+                want_calls.append((0, src.items[i]))
+        case = dict(helper='observe_time', n=n, nfuncs=1, interval=iv_s, burst=burst, clock='%d arrivals 1 us apart, then sparse' % burst)
+        ctx.case(('observe_time-burst', iv_s, burst, tuple(readings[burst:])), True, sample=case)
+        ctx.count('timed_bursts')
+        if len(got) != n or status != 'done' or not same_calls(log, want_calls):
+            ctx.fail('observer-calls-wrong:observe_time', 'after a burst of %d elements: observed positions %s, expected %s (handed through %d of %d, ended %s)' % (
+                burst, [elk(el) for _, el in log][:12], [elk(el) for _, el in want_calls][:12], len(got), n, status), case)
     mout_all = core.run_driver(lines)
     # each line yields one output line per demand
     pos = 0
@@ -279,6 +328,7 @@ def simplecache_cases(ctx):
         k = rng.randint(0, n + 2)
         fail = rng.random() < 0.2
         src = Src(n, fail, rewind=rng.random() < 0.4)
+        SEND_STEPS[0] = rng.random() < 0.3
         stream = S.simplecache(src, L)
         got, hist, status = drive(stream, src, k, False)
         case = dict(helper='simplecache', n=n, length=L, k=k, source_fails=fail)
